@@ -18,7 +18,19 @@
                                         position is replaced by a grammar-valid tree with the same
                                         root label; every node (id, label) of the old tree is still
                                         there: C13 inserted_lossy): insert_shape
-     kind 0  none of these = NON-CONFORMING edge.
+     kind 5  subtree replaced in place (the subtree at the hint position is replaced by a
+                                        grammar-valid tree with the same root label and NODES ARE LOST:
+                                        neither completion nor insertion).  Observed on /repo: after a
+                                        CONTEXT_ADDITION insertion (C13 class K_ctx: the result contains the
+                                        inserted tree only "lossy") the constraint still refers to the OPEN
+                                        leaf of the inserted pattern although the node with that id is
+                                        already expanded in the state tree; SMT elimination then
+                                        substitutes its answer BY ID for the expanded node.  Outside the
+                                        completion guards of r_smt; what is proved for such an edge is the
+                                        tree part of inv (grammar-valid, same root label) and insert_shape
+                                        at every prefix of the hint.  With hint [] this kind only says
+                                        "grammar-valid tree with the same root label".
+     kind 0  none of these (invalid tree or changed root label) = NON-CONFORMING edge.
    The constraint part of an edge is not looked at; it is the explicit premise
    [constraint_part] of compl_edge_refines resp. the clause-level premises of insert_edge_step.
 
@@ -85,7 +97,7 @@ Definition edge_kind (g : grammar) (t : tree) (p : path) (t1 : tree) : N :=
   if negb (wf_treeb g t1 && str_eqb (lbl t1) (lbl t)) then 0
   else if complb t t1 then (if Insert.tree_eqb t t1 then 1 else 2)
   else if complb_ni t t1 then 3
-  else if Insert.keeps_nodes t t1 && insert_atb t p t1 then 4
+  else if insert_atb t p t1 then (if Insert.keeps_nodes t t1 then 4 else 5)
   else 0.
 
 Definition edge_okb (g : grammar) (t : tree) (p : path) (t1 : tree) : bool :=
@@ -94,8 +106,7 @@ Definition edge_okb (g : grammar) (t : tree) (p : path) (t1 : tree) : bool :=
 (* what a conforming edge means for the trees *)
 Definition edge_spec (g : grammar) (t : tree) (p : path) (t1 : tree) : Prop :=
   lbl t1 = lbl t /\ wf_tree g t1 /\
-  (compl t t1 \/ compl_ni t t1 \/
-   (InsertCtxMore.inserted_lossy g t t t1 /\ forall p', prefix p' p -> insert_shape g t p' t1)).
+  (compl t t1 \/ compl_ni t t1 \/ (forall p', prefix p' p -> insert_shape g t p' t1)).
 
 (* one recorded edge as a step relation; the part of a refinement step the trace check does
    not look at *)
@@ -223,7 +234,8 @@ Lemma edge_kind_cases g t p t1 :
   ((edge_kind g t p t1 = 1%N /\ complb t t1 = true /\ Insert.tree_eqb t t1 = true) \/
    (edge_kind g t p t1 = 2%N /\ complb t t1 = true) \/
    (edge_kind g t p t1 = 3%N /\ complb_ni t t1 = true) \/
-   (edge_kind g t p t1 = 4%N /\ Insert.keeps_nodes t t1 = true /\ insert_atb t p t1 = true)).
+   (edge_kind g t p t1 = 4%N /\ Insert.keeps_nodes t t1 = true /\ insert_atb t p t1 = true) \/
+   (edge_kind g t p t1 = 5%N /\ insert_atb t p t1 = true)).
 Proof.
   unfold edge_kind.
   destruct (wf_treeb g t1 && str_eqb (lbl t1) (lbl t)) eqn:Ha; simpl; [|intro H; congruence].
@@ -231,8 +243,8 @@ Proof.
   destruct (complb t t1) eqn:Hc.
   - destruct (Insert.tree_eqb t t1) eqn:He; [left | right; left]; auto.
   - destruct (complb_ni t t1) eqn:Hn; [right; right; left; auto|].
-    destruct (Insert.keeps_nodes t t1 && insert_atb t p t1) eqn:Hi; [|congruence].
-    apply andb_true_iff in Hi. right; right; right. tauto.
+    destruct (insert_atb t p t1) eqn:Hi; [|congruence].
+    destruct (Insert.keeps_nodes t t1) eqn:Hk; right; right; right; [left|right]; auto.
 Qed.
 
 Lemma keeps_nodes_lossy g t t1 : wf_tree g t1 -> lbl t1 = lbl t -> Insert.keeps_nodes t t1 = true ->
@@ -249,20 +261,19 @@ Proof.
   destruct (edge_kind_cases g t p t1 H) as (Hw & Hl & Hk).
   apply wf_treeb_spec in Hw. apply str_eqb_eq in Hl.
   split; [assumption|]. split; [assumption|].
-  destruct Hk as [(_ & Hc & _) | [(_ & Hc) | [(_ & Hc) | (_ & Hc & Hi)]]].
+  destruct Hk as [(_ & Hc & _) | [(_ & Hc) | [(_ & Hc) | [(_ & Hc & Hi) | (_ & Hi)]]]].
   - left. apply complb_spec. assumption.
   - left. apply complb_spec. assumption.
   - right; left. apply complb_ni_spec. assumption.
-  - right; right. split.
-    + apply keeps_nodes_lossy; assumption.
-    + apply insert_atb_shape; assumption.
+  - right; right. apply insert_atb_shape; assumption.
+  - right; right. apply insert_atb_shape; assumption.
 Qed.
 
 (* the kinds separately *)
 Theorem edge_kind1_equal g t p t1 : edge_kind g t p t1 = 1%N -> t1 = t.
 Proof.
   intro H. assert (Hn : edge_kind g t p t1 <> 0%N) by (rewrite H; discriminate).
-  destruct (edge_kind_cases g t p t1 Hn) as (_ & _ & [(_ & _ & He) | [(E & _) | [(E & _) | (E & _)]]]);
+  destruct (edge_kind_cases g t p t1 Hn) as (_ & _ & [(_ & _ & He) | [(E & _) | [(E & _) | [(E & _) | (E & _)]]]]);
     try (rewrite H in E; discriminate).
   apply InsertFacts.tree_eqb_eq in He. auto.
 Qed.
@@ -271,7 +282,7 @@ Theorem edge_kind12_compl g t p t1 :
   edge_kind g t p t1 = 1%N \/ edge_kind g t p t1 = 2%N -> wf_tree g t1 /\ compl t t1.
 Proof.
   intro H. assert (Hn : edge_kind g t p t1 <> 0%N) by (destruct H as [H|H]; rewrite H; discriminate).
-  destruct (edge_kind_cases g t p t1 Hn) as (Hw & _ & [(_ & Hc & _) | [(_ & Hc) | [(E & _) | (E & _)]]]);
+  destruct (edge_kind_cases g t p t1 Hn) as (Hw & _ & [(_ & Hc & _) | [(_ & Hc) | [(E & _) | [(E & _) | (E & _)]]]]);
     try (destruct H as [H|H]; rewrite H in E; discriminate);
     (split; [apply wf_treeb_spec | apply complb_spec]; assumption).
 Qed.
@@ -279,7 +290,7 @@ Qed.
 Theorem edge_kind3_compl_ni g t p t1 : edge_kind g t p t1 = 3%N -> wf_tree g t1 /\ compl_ni t t1.
 Proof.
   intro H. assert (Hn : edge_kind g t p t1 <> 0%N) by (rewrite H; discriminate).
-  destruct (edge_kind_cases g t p t1 Hn) as (Hw & _ & [(E & _) | [(E & _) | [(_ & Hc) | (E & _)]]]);
+  destruct (edge_kind_cases g t p t1 Hn) as (Hw & _ & [(E & _) | [(E & _) | [(_ & Hc) | [(E & _) | (E & _)]]]]);
     try (rewrite H in E; discriminate).
   split; [apply wf_treeb_spec | apply complb_ni_spec]; assumption.
 Qed.
@@ -288,11 +299,23 @@ Theorem edge_kind4_insert g t p t1 : edge_kind g t p t1 = 4%N ->
   InsertCtxMore.inserted_lossy g t t t1 /\ forall p', prefix p' p -> insert_shape g t p' t1.
 Proof.
   intro H. assert (Hn : edge_kind g t p t1 <> 0%N) by (rewrite H; discriminate).
-  destruct (edge_kind_cases g t p t1 Hn) as (Hw & Hl & [(E & _) | [(E & _) | [(E & _) | (_ & Hk & Hi)]]]);
+  destruct (edge_kind_cases g t p t1 Hn) as (Hw & Hl & [(E & _) | [(E & _) | [(E & _) | [(_ & Hk & Hi) | (E & _)]]]]);
     try (rewrite H in E; discriminate).
   apply wf_treeb_spec in Hw. apply str_eqb_eq in Hl. split.
   - apply keeps_nodes_lossy; assumption.
   - apply insert_atb_shape; assumption.
+Qed.
+
+(* kind 5: a subtree is replaced in place (nodes may be lost): the tree guards of r_insert hold at
+   every prefix of the hint, nothing more *)
+Theorem edge_kind5_replace g t p t1 : edge_kind g t p t1 = 5%N ->
+  lbl t1 = lbl t /\ wf_tree g t1 /\ forall p', prefix p' p -> insert_shape g t p' t1.
+Proof.
+  intro H. assert (Hn : edge_kind g t p t1 <> 0%N) by (rewrite H; discriminate).
+  destruct (edge_kind_cases g t p t1 Hn) as (Hw & Hl & [(E & _) | [(E & _) | [(E & _) | [(E & _) | (_ & Hi)]]]]);
+    try (rewrite H in E; discriminate).
+  apply wf_treeb_spec in Hw. apply str_eqb_eq in Hl. split; [auto|]. split; [assumption|].
+  apply insert_atb_shape; assumption.
 Qed.
 
 (* ------------------------------------------------------------------ *)
@@ -524,11 +547,14 @@ Definition tc_t2' : tree := Node tc_s 7 false [Node tc_a 8 false [tc_la]].
 (* self embedding of an open <a> in front of the host *)
 Definition tc_t3 : tree := Node tc_s 5 false [Node tc_a 6 true []; tc_t2].
 
+(* the nested <s> of tc_t3 replaced by a fresh open <s>: nodes 1, 2, 9 are lost *)
+Definition tc_t3' : tree := Node tc_s 5 false [Node tc_a 6 true []; Node tc_s 11 true []].
+
 Example edge_kinds_ex :
   edge_kind tc_g tc_t1 [] tc_t1 = 1%N /\ edge_kind tc_g tc_t0 [] tc_t1 = 2%N /\
   edge_kind tc_g tc_t1 [] tc_t2 = 2%N /\ edge_kind tc_g tc_t1 [] tc_t2' = 3%N /\
-  edge_kind tc_g tc_t2 [] tc_t3 = 4%N /\
-  edge_kind tc_g tc_t2 [] tc_t1 = 0%N /\ edge_kind tc_g tc_t2 [] (Node tc_a 2 false [tc_la]) = 0%N.
+  edge_kind tc_g tc_t2 [] tc_t3 = 4%N /\ edge_kind tc_g tc_t3 [1] tc_t3' = 5%N /\
+  edge_kind tc_g tc_t3 [] tc_t0 = 5%N /\ edge_kind tc_g tc_t1 [] (Node tc_s 1 false [tc_la]) = 0%N /\ edge_kind tc_g tc_t2 [] (Node tc_a 2 false [tc_la]) = 0%N.
 Proof. vm_compute. repeat split. Qed.
 
 Example trace_tree_inv_ex :
